@@ -98,7 +98,7 @@ func (f *Frame) pos(p token.Pos) string {
 		p = f.fn.Pos()
 	}
 	ps := f.fn.Prog.Fset.Position(p)
-	return fmt.Sprintf("%s:%d", strings.TrimPrefix(ps.Filename, "/repo/"), ps.Line)
+	return fmt.Sprintf("%s:%d", strings.TrimPrefix(ps.Filename, repoDir+"/"), ps.Line)
 }
 
 func (f *Frame) topFrame() *Frame {
